@@ -10,7 +10,7 @@ import (
 //verif:witness H_C19_others end
 //verif:bound C19 quick rolling appender, one writer, 1..3 writes under arbitrary non-decreasing clock readings (interval 1 s / 10 min); every OpenFile after Start and every Write may fail (fault bit per call, path-split)
 //verif:bound C19 thorough 1..5 writes, otherwise as quick
-//verif:bound C19 all other appenders: file appender whose Start failed / whose file is closed; console stream that fails, makes no progress or writes short; rolling appender on a missing directory; file and rolling-file appender on a target that opens but rejects every write (full disk): the calls return, nothing panics
+//verif:bound C19 all other appenders: file appender whose Start failed / whose file is closed; console stream that fails, makes no progress or writes short; rolling appender on a missing directory (writes and the retention scan); file and rolling-file appender on a target that opens but rejects every write (full disk): the calls return, nothing panics
 //verif:assume C19 a failing OpenFile returns (nil, error), a failing Write returns an error and writes nothing (os.File contract); faults of the directory listing/removal are not modelled
 //verif:engine-only H_C19_rolling
 //verif:engine-only H_C19_others
@@ -146,6 +146,7 @@ func H_C19_others() {
 		vAssert(err != nil, "rolling-start-reports-missing-directory")
 		ra.Append(e)
 		ra.Write([]byte("x"))
+		ra.clearExpiredFiles() // the retention scan during the outage must not fail either
 		ra.Stop()
 	}
 	vReach("end")
